@@ -35,7 +35,11 @@ Record case := mkCase {
   (* rules `$a at n or ...`: (n, the literal, did the rule match?, the matches reported for $a) *)
   c_anchored : list (N * list N * bool * list rmatch);
   (* MatchList::add driven directly (hook): the calls (base, start, end, replace_if_longer) and the final list (base, start, end) *)
-  c_ml : list (list (N * N * N * bool) * list (N * N * N)) }.
+  c_ml : list (list (N * N * N * bool) * list (N * N * N));
+  (* rules `$a <where> and $b`: (kind, n, $a's literal, index j of the plain rule with $b's pattern,
+     did the rule match?, starts of the matches reported for $b); kind 0: `$a at 0` (header constraint),
+     1: `$a at n`, 2: `$a in (0..n)` *)
+  c_hdr : list (N * N * list N * N * bool * list N) }.
 
 Definition mtch_eqb (a b : mtch) : bool :=
   (m_start a =? m_start b) && (m_len a =? m_len b) && (snd a =? snd b).
@@ -97,7 +101,37 @@ Fixpoint sorted_starts (l : list mtch) : bool :=
   | _ => true
   end.
 
+(* is the literal at absolute offset p, inside one of the given blocks? *)
+Definition lit_at (k : case) (lit : list N) (bs : list (N * N)) (p : N) : bool :=
+  let len := N.of_nat (length lit) in
+  existsb (fun b => (fst b <=? p) && (p + len <=? fst b + snd b)) bs && bytes_eqb (slice (c_file k) p (p + len)) lit.
+
+Definition a_holds (k : case) (kind n : N) (lit : list N) (bs : list (N * N)) : bool :=
+  match kind with
+  | 0 => lit_at k lit bs 0
+  | 1 => lit_at k lit bs n
+  | _ => existsb (lit_at k lit bs) (map N.of_nat (seq 0 (Datatypes.S (N.to_nat n))))
+  end.
+
+Fixpoint select {A} (l : list A) (keep : list bool) : list A :=
+  match l, keep with x :: l', b :: k' => if b then x :: select l' k' else select l' k' | _, _ => [] end.
+
+(* the starts of $b's matches coming from the selected blocks *)
+Definition b_starts (k : case) (j : nat) (live : list bool) : list N :=
+  let bm := select (combine (c_blocks k) (c_per_block k)) live in
+  map m_start (fold_left (fun acc x => add_all keep_longer (map (rebase (fst (fst x))) (nth j (snd x) [])) acc) bm []).
+
+Definition hdr_ok (model : bool) (k : case) (h : N * N * list N * N * bool * list N) : bool :=
+  let '(kind, n, lit, j, verdict, starts_obs) := h in
+  let live := if model && (kind =? 0) then live_blocks (c_file k) lit false (c_blocks k)
+              else map (fun _ => true) (c_blocks k) in
+  let bs := select (c_blocks k) live in
+  let bst := b_starts k (N.to_nat j) live in
+  let expected := a_holds k kind n lit bs && negb (match bst with [] => true | _ => false end) in
+  Bool.eqb verdict expected && (negb verdict || list_eqb N.eqb starts_obs bst).
+
 Definition check_case (k : case) : bool :=
+  forallb (hdr_ok true k) (c_hdr k) &&
   forallb ml_ok (c_ml k) &&
   forallb (anchored_k_ok k) (c_anchored k) &&
   forallb (fun w => let '(h, notion, defined) := w in Bool.eqb defined (whole_model h notion)) (c_whole k) &&
@@ -157,6 +191,9 @@ Definition anchored_s_ok (k : case) (a : N * list N * bool * list rmatch) : bool
    else match res with [] => true | _ => false end).
 
 Definition spec_case (k : case) : bool :=
+  (* `$a at 0 / at n / in (0..n) and $b`: the rule matches exactly when $a is where it must be inside a delivered
+     block and $b occurs in some block; whatever pruning the conditions allow must not change that *)
+  forallb (hdr_ok false k) (c_hdr k) &&
   forallb (anchored_s_ok k) (c_anchored k) &&
   forallb (fun p =>
     let res := nth p (c_block_res k) [] in
